@@ -367,6 +367,18 @@ pub fn deliver(bytes: &[u8], cuts: &[usize], v: ProtocolVersion, stop_after: usi
 	d
 }
 
+/// Real-time pause (ms) after the first fragment of the next `deliver_once` was consumed: the one
+/// place where a run waits for real, to put a gap between two fragments that is longer than the
+/// codec's 2 s header timeout and far below its 60 s body timeout.
+static GAP_AFTER_FIRST_FRAGMENT_MS: std::sync::atomic::AtomicU64 = std::sync::atomic::AtomicU64::new(0);
+
+pub fn deliver_with_gap(bytes: &[u8], cut: usize, gap_ms: u64, v: ProtocolVersion) -> Delivery {
+	GAP_AFTER_FIRST_FRAGMENT_MS.store(gap_ms, Ordering::SeqCst);
+	let d = deliver_once(bytes, &[cut], v, usize::MAX);
+	GAP_AFTER_FIRST_FRAGMENT_MS.store(0, Ordering::SeqCst);
+	d
+}
+
 fn deliver_once(bytes: &[u8], cuts: &[usize], v: ProtocolVersion, stop_after: usize) -> Delivery {
 	let (mut w, r) = socket_pair();
 	let rfd = r.as_raw_fd();
@@ -406,6 +418,10 @@ fn deliver_once(bytes: &[u8], cuts: &[usize], v: ProtocolVersion, stop_after: us
 		}
 		if done.load(Ordering::SeqCst) {
 			break;
+		}
+		let gap = GAP_AFTER_FIRST_FRAGMENT_MS.swap(0, Ordering::SeqCst);
+		if gap > 0 {
+			std::thread::sleep(Duration::from_millis(gap));
 		}
 	}
 	// let the reader finish what it has, then observe the unread remainder and close
@@ -600,6 +616,20 @@ pub fn segment_msgs(world: &World, v: ProtocolVersion, rng: &mut SimRng) -> Vec<
 			));
 		}
 	}
+	// a well-formed bitmap segment with more than one chunk (the worlds' own bitmap MMRs have a single
+	// leaf): block hash, identifier (height 1, index 0), one block of two chunks with an empty index
+	// list, an empty proof, the output root. The identifier mutations then reach the leaf-position
+	// arithmetic of `BitmapSegment::into_segment` with several leaves.
+	{
+		let mut body = bh.as_bytes().to_vec();
+		body.push(1);
+		body.extend_from_slice(&0u64.to_be_bytes());
+		body.extend_from_slice(&1u16.to_be_bytes());
+		body.extend_from_slice(&[2, 1, 0, 0]);
+		body.extend_from_slice(&0u64.to_be_bytes());
+		body.extend_from_slice(ah.output_root.as_bytes());
+		out.push(WireMsg { ty: Type::OutputBitmapSegment as u8, name: "bitmap2seg".into(), body, attachment: None, headers: None });
+	}
 	out
 }
 
@@ -783,6 +813,22 @@ pub fn c19_case(tier: &str, seed: u64, case: u64) -> CaseResult {
 			}
 			let exp = expected(&seq);
 			let names = format!("v{} [{}]", vnum, seq.iter().map(|m| m.name.clone()).collect::<Vec<_>>().join(","));
+			// one real pause per check, inside a message body: longer than the 2 s the codec waits for a
+			// frame header, far below the 60 s it grants a body ("within the I/O timeouts")
+			if case == 0 && s == 0 && *vnum == 1000 {
+				let body_frames: Vec<usize> = (0..seq.len()).filter(|i| seq[*i].body.len() >= 4 && seq[*i].attachment.is_none() && seq[*i].headers.is_none()).collect();
+				if let Some(fi) = body_frames.first() {
+					let cut = frame_starts[*fi] + 11 + seq[*fi].body.len() / 2;
+					let d = deliver_with_gap(&stream, cut, 2300, v);
+					record(&mut res, &d, &[cut], &names);
+					res.fault("real_gap_2300ms_inside_a_body");
+					res.probe("slow_body_fragment_delivered");
+					if let Some(vv) = compare(&names, &exp, &d, &[cut], &stream, v) {
+						found = Some(vv);
+						break 'outer;
+					}
+				}
+			}
 			// unfragmented
 			let d = deliver(&stream, &[], v, usize::MAX);
 			record(&mut res, &d, &[], &names);
@@ -1426,6 +1472,16 @@ pub fn c11_case(tier: &str, seed: u64, case: u64) -> CaseResult {
 			if m.name.ends_with("seg") && body_len >= 41 {
 				for h in [5u8, 31, 62, 63, 64, 65, 127, 128, 200, 255] {
 					for idx in [0u64, 1, 2, 3, (1 << 32) + 1, u64::MAX] {
+						let mut f = base.clone();
+						f[11 + 32] = h;
+						f[11 + 33..11 + 41].copy_from_slice(&idx.to_be_bytes());
+						priority.push((format!("segid@h{}i{}", h, idx), f));
+					}
+				}
+				// indices at which the first leaf of the segment sits at 2^63 and beyond: the conversion
+				// from leaf index to MMR position doubles it
+				for h in [0u8, 1, 2, 5, 9, 11, 13] {
+					for idx in [1u64 << (63 - h as u32), (1u64 << (63 - h as u32)) - 1, (1u64 << (63 - h as u32)) + 1, 1u64 << 62, (1u64 << 63) - 1] {
 						let mut f = base.clone();
 						f[11 + 32] = h;
 						f[11 + 33..11 + 41].copy_from_slice(&idx.to_be_bytes());
